@@ -122,7 +122,7 @@ def run_c06(tier, args):
     cov = dict(
         evaluations=total.counters.get("c06.evaluations", 0),
         distinct_nontrivial=len(total.tuples),
-        rule="one evaluation = size_bytes_checked(view{p,n}, n) on one (frame, fault set, n), run three times (guard page right after byte n-1; n bytes + 64 readable bytes of poison 0x00; same with 0xFF) and compared with the bounded reference walker on the same n bytes. Plans enumerate every truncation point n in [0,N] of a seeded well-formed frame, or every structural field (message/group blockLength, numInGroup, data length) x a boundary-value catalogue x every truncation point (stride 7 + field boundaries for frames over 160 bytes), or explore 1-3 random faults (hostile 64-bit values, byte flips, stale tails, extended blocks) followed by a full truncation sweep; message views and group views. distinct = distinct (build, schema, message, view kind, first unmet structural item, outcome class, verdict) tuples",
+        rule="one evaluation = size_bytes_checked(view{p,n}, n) on one (frame, fault set, n), run three times (guard page right after byte n-1; n bytes + 64 readable bytes of poison 0x00; same with 0xFF) and compared with the bounded reference walker on the same n bytes. Plans enumerate every truncation point n in [0,N] of a seeded well-formed frame, or every structural field (message/group blockLength, numInGroup, data length) x a boundary-value catalogue x every truncation point (stride 7 + field boundaries for frames over 160 bytes), or explore 1-3 random faults (hostile 64-bit values, byte flips, stale tails, extended blocks) followed by a full truncation sweep, or take a torn encode (F5: a slot holding zeros / ones / another frame / noise, overwritten by the first j writes - or all - of a real producer using random-access setters or the cursor idiom) through a full truncation sweep; message views and group views. distinct = distinct (build, schema, message, view kind, first unmet structural item, outcome class, verdict) tuples",
         plans=total.runs,
         samples=total.samples[:5],
         faults_fired={k[len("fault."):]: v for k, v in sorted(total.counters.items()) if k.startswith("fault.")},
@@ -179,7 +179,7 @@ def run_c10(tier, args):
     cov = dict(
         evaluations=ops + sum(v for k, v in total.counters.items() if k.startswith("dynarr.op.") and not k.endswith("skipped")),
         distinct_nontrivial=len(total.tuples),
-        rule="wire half: for a seeded well-formed frame (optionally with extended blocks) every truncation n in [0,N] x every catalogue op reachable for its shape (field get/set/by-tag incl. composite members; arrays: data/[]/front/back/strlen/strlen_r/fill/assign_string/assign/assign_range/iterate/reverse iterate/raw(); groups: view/size/empty/get_header and its members/resize/clear/fill_group_header/size_bytes/iterate/iterator arithmetic/[]/front/back; every op of the first and last entry of a flat group again through *(begin()+i), *(end()-k), back(), front(), ++ steps, end()[-k]; data: view/size/read/[]/front/back/resize/push_back/assign_string/clear/size_bytes; size_bytes and visit_children of every level; get_header and its members, fill_message_header; seven scripted cursor traversals through every wrapper kind incl. cursor setters and subranges, + size_bytes(m,c); full-depth visit); a quarter of the frames additionally carry 1-2 corrupted structural fields or flipped bytes (then only the safety half applies), each on a fresh copy of the bytes placed so that byte n is a guard page, canaries before p; dynarr half: seeded histories on dynamic_array_ref with capacity below what an op needs and corrupted length prefixes. Outcome must be completed or handler; a guard-page hit is re-run with accessible slack to tell a late check (handler fires after the access; counted, not a violation of the literal statement) from a silent out-of-bounds access; converse: handler must not fire when n covers the op's conservative extent (DESIGN appendix D). distinct = distinct (build, schema, target kind/op, outcome, fits|cut) tuples",
+        rule="wire half: for a seeded well-formed frame (optionally with extended blocks) every truncation n in [0,N] x every catalogue op reachable for its shape (field get/set/by-tag incl. composite members; arrays: data/[]/front/back/strlen/strlen_r/fill/assign_string/assign/assign_range/iterate/reverse iterate/raw(); groups: view/size/empty/get_header and its members/resize/clear/fill_group_header/size_bytes/iterate/iterator arithmetic/[]/front/back; every op of the first and last entry of a flat group again through *(begin()+i), *(end()-k), back(), front(), ++ steps, end()[-k]; data: view/size/read/[]/front/back/resize/push_back/assign_string/clear/size_bytes; size_bytes and visit_children of every level; get_header and its members, fill_message_header; seven scripted cursor traversals through every wrapper kind incl. cursor setters and subranges, + size_bytes(m,c); full-depth visit; six real producers - random-access setters or the cursor idiom, over the frame's own bytes, an all-ones slot or a zeroed slot - encoding the frame's value tree into the n-byte slot: capacity fault on the writer side); a quarter of the frames additionally carry 1-2 corrupted structural fields or flipped bytes (then only the safety half applies), each on a fresh copy of the bytes placed so that byte n is a guard page, canaries before p; dynarr half: seeded histories on dynamic_array_ref with capacity below what an op needs and corrupted length prefixes. Outcome must be completed or handler; a guard-page hit is re-run with accessible slack to tell a late check (handler fires after the access; counted, not a violation of the literal statement) from a silent out-of-bounds access; converse: handler must not fire when n covers the op's conservative extent (DESIGN appendix D). distinct = distinct (build, schema, target kind/op, outcome, fits|cut) tuples",
         samples=total.samples[:5],
         frames=total.runs,
         op_executions=ops,
@@ -249,7 +249,7 @@ def _run_simple(prop, tier, counts, level, rule, extra_cov, assumptions, eval_co
 def run_c04(tier, args):
     q = tier == "quick"
     return _run_simple("C04", tier, {"checked": 60000 if q else 2000000, "unchecked": 30000 if q else 1000000, "checked_clang20": 300000, "unchecked_clang20": 300000}, "exploration",
-                       "one evaluation = one cursor call inside a seeded walk over a complete frame (optionally with extended blocks): per member a seeded sequence of wrappers (plain, init, dont_move, init_dont_move, skip; up to 3 non-moving repeats before a moving call; setter form for scalars; cursor_range or cursor_subrange(0,j)+cursor_subrange(j[,count]) for groups; const or mutable cursor). After every call the cursor position must equal the documented one (model, appendix C) and the value / view address must equal what the real random-access accessor returns; a complete walk must end at the message end with size_bytes(m,c)==size_bytes(m). In checked builds a third of the walks displace the cursor (by +-1..17 bytes) before one plain/dont_move/skip call of a field or non-first group/data: the wrong-cursor assertion must fire at exactly that call. distinct = distinct (build, schema, member kind, wrapper, extended?) and (misuse, schema, member kind, wrapper) tuples",
+                       "one evaluation = one cursor call inside a seeded walk over a complete frame (optionally with extended blocks): per member a seeded sequence of wrappers (plain, init, dont_move, init_dont_move, skip; up to 3 non-moving repeats before a moving call; setter form for scalars; cursor_range or cursor_subrange(0,j)+cursor_subrange(j[,count]) for groups; const or mutable cursor). After every call the cursor position must equal the documented one (model, appendix C) and the value / view address must equal what the real random-access accessor returns; a complete walk must end at the message end with size_bytes(m,c)==size_bytes(m); group / data views handed out through a cursor must decode the same numInGroup / length and expose the same payload as the random-access ones. A sixth of the plans are writer-side differentials: the same value tree encoded into a slot (zeros, ones, another frame, or noise) by a real producer using random-access setters and by one using the cursor idiom (plain cursor setters, group(c) + fill_group_header + cursor_range, data through dont_move + skip) must leave identical bytes and the cursor at size_bytes(m). In checked builds a third of the walks displace the cursor (by +-1..17 bytes) before one plain/dont_move/skip call of a field or non-first group/data: the wrong-cursor assertion must fire at exactly that call. distinct = distinct (build, schema, member kind, wrapper, extended?) and (misuse, schema, member kind, wrapper) tuples",
                        {}, ["the cursor protocol model of DESIGN.md appendix C (derived from doc/representation.md and the cursor_ops docs)", "misuse is only injected where the statement demands a report (field, or non-first group/data, through plain/dont_move/skip)"], "c04.calls")
 
 
@@ -263,8 +263,8 @@ def run_c19(tier, args):
 def run_c03(tier, args):
     q = tier == "quick"
     return _run_simple("C03", tier, {"checked": 60000 if q else 800000, "unchecked": 60000 if q else 800000, "unchecked_O0": 20000 if q else 200000, "checked_clang20": 100000, "unchecked_clang20": 100000}, "exploration",
-                       "one evaluation = one accessor result checked on a frame produced by the independent reference encoder with wire block lengths larger than the compiled ones (root and every group level independently, +1..+21 bytes of filler): every field of every level instance by random access (value == wire bytes at the model offset, views at the model position), every group (position, size, size_bytes, entry positions by iteration and operator[]), every data member (position, size, content), size_bytes of every level, size_bytes_checked, seven cursor traversals (plain and through every wrapper kind, subranges; every position, value and view address, end == wire size) and a full visit (structure and positions, end == wire size); flat groups also through iterator arithmetic. Extensions are +1..+21 bytes or up to values around 127/128/255/256/32767/32768 (root: up to 65536). distinct = distinct (build, schema, message, root extension) tuples. No fault is involved: the configuration axis is the producing peer's schema version (degenerate use of the method, DESIGN 1).",
-                       {}, ["the layout model of DESIGN.md appendix A", "the extension is filler bytes, not a real v2 encoder (the thorough real-v2 producer of the design was not built)"], "c03.random_access_checks")
+                       "one evaluation = one accessor result checked on a frame produced by the independent reference encoder with wire block lengths larger than the compiled ones (root and every group level independently, +1..+21 bytes of filler): every field of every level instance by random access (value == wire bytes at the model offset, views at the model position), every group (position, size, size_bytes, entry positions by iteration and operator[]), every data member (position, size, content), size_bytes of every level, size_bytes_checked, seven cursor traversals (plain and through every wrapper kind, subranges; every position, value and view address, end == wire size) and a full visit (structure and positions, end == wire size); flat groups also through iterator arithmetic. A fifth of the plans take the image from the REAL producer instead: the encoder generated from version 2 of the schema (same messages, 1-3 fields of built-in types appended to the block of every message and group), random-access setters or the cursor idiom, driven by a version-2 value tree, decoded by the version-1 consumer. Extensions are +1..+21 bytes or up to values around 127/128/255/256/32767/32768 (root: up to 65536). distinct = distinct (build, schema, message, root extension) tuples. No fault is involved: the configuration axis is the producing peer's schema version (degenerate use of the method, DESIGN 1).",
+                       {}, ["the layout model of DESIGN.md appendix A", "four fifths of the frames come from the reference encoder with filler-extended blocks; one fifth from the real encoder sbeppc generates for version 2 of the schema (corner schemas and the first 4 / 16 random ones; fields appended to every block), accepted only when the image equals the reference encoder's byte for byte (version field aside)"], "c03.random_access_checks")
 
 
 def replay(prop, path):
